@@ -367,7 +367,33 @@ DEFAULT_RULE = (
     "faults). A run is non-trivial when the generated scenario has >= 2 points in its search space, >= 1 constraint "
     "and executed real NuCS code; distinct = distinct SHA-256 of (rendered scenario, configuration list)."
 )
-RULES = {}
+_E1 = ("E1: one run = generated in-contract model (1-4 shared domains, <= 8 variables through indices/offsets, 1-3 "
+       "constraints of the 21 shipped types, aliasing of a shared domain inside a constraint in about 1/4 of them) x 1-3 "
+       "(configuration, posting order, mode) triples through the real BacktrackSolver, interpreted, monitors attached. ")
+_E2 = ("E2: one run = model + partition (Problem.split or hand partition) + per-worker configurations + operation + "
+       "seeded delivery plan (merge / jitter / sequential / reverse / slow / race templates, op latency, stalls, late "
+       "pickling, pipe capacity) through the real MultiprocessingSolver over SimProcess/SimQueue. ")
+_NT = ("Non-trivial: search space >= 2, >= 1 constraint, real NuCS code executed. Distinct: SHA-256 of the rendered "
+       "scenario (model, configurations / plan, observed delivery order).")
+RULES = {
+    "C01": _E1 + _E2 + "Oracle on every reported vector: domains, offsets of shared domains, ground predicate of every constraint. " + _NT,
+    "C02": _E1 + _E2 + "Oracle: multiset of enumerated solutions = independent enumeration of the cartesian product. " + _NT,
+    "C03": _E1 + _E2 + "Oracle: feasible, optimal w.r.t. the reference, None iff infeasible, terminates within the step budget. " + _NT,
+    "C04": _E1 + "Oracle: per-pass execution bound 2(P+1)(S+2); 1.5 M simulated steps per solver call (backward jumps in NuCS code + charged interposed events); variable heuristic never answers 'nothing to branch on' in an unsolved state. " + _NT,
+    "C07": _E1 + "E3: random push/pop/entail sequences on the real stack arrays. Oracle: every disabled constraint is satisfied by every tuple of the current box at every quiescent point; every 'entailed' answer checked on all tuples of the returned box; flags restored on backtrack. " + _NT,
+    "C08": _E1 + "Wake order per run: native / random / reverse / starve-one (seeded scheduler replaces pop_propagator). Oracle at every pass end: contraction, shadow re-execution fixpoint, equality with the reference greatest fixpoint when every execution of the pass was observed exact. " + _NT,
+    "C09": "E3: one run = 1-4 domains (negative, size 1-7), random flags and trigger masks, 3-22 operations (push through one of the 5 real value heuristics, shrink, entail, pop through the real backtrack) against a reference stack; " + _E1 + _NT,
+    "C10": _E1 + "(shaving forced in 3/4 of the configurations). Oracle around every shaving call and every probe: stack height, restored domains/flags, shaved bound announced, contained in plain BC (run on a copy), no solution lost, shaved only if refuted. " + _NT,
+    "C11": _E2 + "Oracle: multiset / optimum / None as the reference, nothing left in flight at return, no extra get, statistics = sum (max for depth) of the workers' FINAL statistics; 1/4 of the runs judge the second call on a reused instance. " + _NT,
+    "C12": _E2 + "(Problem.split always, k up to size+3, any variable incl. shared domains with offsets). Oracle: original unchanged, parts differ only in that domain, no shared state, each part solved by a simulated worker under the step budget, disjoint union = reference. " + _NT,
+    "C13": "e1c13: generated model + 1-2 rewrites (permute constraints / variables / shared domains, duplicate a constraint, add an always-true constraint, unshare through x-y=offset, translate) solved under independent configurations; e6: shipped models with shuffled / duplicated / always-true constraints against known counts and optima. " + _NT,
+    "C15": "E4: one run = 1-3 generated models + a history of 3-10 operations in one interpreter, executed interpreted (twice) and compiled, + clean-room executions (fresh interpreter, own dependency chain) of 3 operations. Distinct = SHA-256 of the history.",
+    "C16": _E1 + "(arities up to 6, up to 8 variables) + E3. Oracle: no exception from a NuCS frame (IndexError in particular) on in-contract input, interpreted mode as bounds-checking executor. " + _NT,
+    "C17": _E1 + _E2 + "Oracle: each of the 13 counters = event count from the interposed log (every documented reading of 'no change' accepted), laws for exhaustive BC enumeration, per-worker laws and sums. " + _NT,
+    "C18": _E2 + "then, per scenario, EVERY (worker, death point, kind in {exception, kill with 0..2 unflushed messages lost}) when there are <= 24 of them (a seeded sample of 24 otherwise), each under a fresh delivery plan, 1/6 with a second death, 1/4 with a stalled survivor, 1/3 on a reused parent instance. Oracle: returns or raises within bounded virtual time; SimDeadlock (blocking get/join that can never return, endless polling) is the hang; results contain all survivor solutions, nothing invented. " + _NT,
+    "C19": "E5: enumerated capacity points (stack heights x required depths x 1- or 2-level heuristics x BC/shaving; heights around the 8-bit limit; sizes around 2^16 parameters / positions / domains and 2^8 constraint types), each compiled in a sacrificial interpreter and interpreted. Distinct = point.",
+    "C20": "E6: enumerated (shipped model, size, symmetry breaking) points x {default configuration, 2 seeded (configuration, simulated workers, interleaving) variants}; definition-level validator on every solution; known counts / optima / brute force; known valid objects offered to the model. Distinct = (point, variant).",
+}
 COMMON_ASSUMPTIONS = [
     "interpreted execution (NUMBA_DISABLE_JIT=1) of the working tree stands for the compiled engine (sampled by C15)",
     "reference semantics written from docs/source/reference.rst",
